@@ -7,7 +7,7 @@ CLAIMED = {
  "C19": ("stateless interleaving exploration (E4): real goroutines under a cooperative scheduler with scheduling points at every instrumented access to written package-level state and every sync/atomic operation; vector-clock race decision; solo-result comparison; deep state snapshots; free-running -race pass as auxiliary",
          "The current tree is re-instrumented on every run (go/ast + go/types over the library and its four first-party dependencies); all ordered pairs and (f,f,f) triples of 46 representative calls on shared arguments are explored over all interleavings within the deviation bound (2 quick, unbounded thorough); L2 digests every package-level variable and every shared argument around each solo call; L3 runs the same calls free-running under the race detector.",
          "Trusted: the instrumenter (a missed access weakens L1 only; L2/L3 do not depend on it), the sync/atomic shims, the cooperative scheduler. Hardware memory ordering is not modelled. Reads of variables that no instrumented statement writes are not scheduling points (they are independent of everything).", "4/C19"),
- "C14": ("stateless exploration (E1) with map-iteration starts owned as environment choices (deviation bound 1 quick / 2 thorough) over segments x radii x skip flag; relational oracle + independent ECEF distance",
+ "C14": ("stateless exploration (E1) with map-iteration starts owned as environment choices (quick: <= 1 deviation over 16 iteration starts; thorough: <= 1 deviation over 64 starts on the wide alphabets plus <= 2 deviations over 8 starts on the quick alphabets) over segments x radii x skip flag; relational oracle + independent ECEF distance",
          "For every input of the alphabet every execution within the deviation bound is checked: duplicate-free, requested zooms, superset of the line, radius 0 = line, added IDs inside the maximal fitted-layer box, measured subset of skipped, no added voxel beyond the radius by an independent segment-to-quadrilateral distance, and identical result across executions.",
          "Trusted: runtime overlay (7 patched files), ref.SegQuadDist/ECEF. Lines <= 12 voxels, radii <= 2.5 voxel widths and below 80% of the largest reachable chord (the layer fit does not terminate beyond).", "4/C14"),
  "C16": ("stateless exploration (E1) with map-iteration starts owned as environment choices: operations x argument lists x permutations/duplications x all executions within the deviation bound, each compared with the default-order result of the base list",
@@ -34,7 +34,7 @@ CLAIMED = {
  "C13": ("exhaustive choice-tree enumeration (E1) of tile lists x (exponent, offset, output zoom) vs per-tile C12 conversion, exact interval reference and expansion reference",
          "Full product of tile vertical zoom x exponent x output zoom x index class x offset x footprint class x 8 list shapes (overlapping ranges, duplicates, a bad tile in each position): footprint kept, zoom, exact per-tile index set, containment of the tile interval, duplicate freedom, whole-call failure, and the spatial-ID variant as union of expansions.",
          "Trusted: ref.AltKeyToZ, ref.ChangeZoom. Calls predicted above 600 IDs are skipped and counted.", "4/C13"),
- "C15": ("exhaustive choice-tree enumeration (E1): every string over an 8-letter alphabet up to length 4 (quick) / 6 (thorough), every bad-field placement and arity edit, every invalid numeric/point argument, through 24 ID-consuming and ~30 argument-taking functions vs a re-implemented input grammar",
+ "C15": ("exhaustive choice-tree enumeration (E1): every string over an 8-letter alphabet up to length 5 (quick) / 7 (thorough) and every string of length 8-9 over a 4- (quick) / 7-letter (thorough) alphabet, every bad-field placement and arity edit, every invalid numeric/point argument, through 24 ID-consuming and ~30 argument-taking functions vs a re-implemented input grammar",
          "Every candidate string is classified by an independent grammar (exactly strconv.ParseInt's language, exact arity) and every error-returning exported function must reject the malformed ones without panicking; invalid zooms, options, radii, layer counts, nil points and out-of-range coordinates must give errors and empty results; accepted points keep lon/alt bit-for-bit.",
          "Trusted: ref.ParseInt grammar. Strings beyond the length bound only via mutation tokens; the latitude sliver (85.0511287798, 85.0511287799) is not judged.", "4/C15"),
  "C20": ("exhaustive choice-tree enumeration (E1) of slices, (index, shift) pairs, (n,k), vector and matrix alphabets vs map/set, big-integer and direct-formula references",
@@ -43,7 +43,7 @@ CLAIMED = {
  "C10": ("exhaustive choice-tree enumeration (E1) of IDs and short lists through notation conversions, object parse/print and expansion vs string permutation and dyadic-box reference",
          "Full products over zoom pairs x index classes (distinct components so swaps show) for parse/print/getters; all list shapes of length 0..3 for the notation round trips; all zoom differences |h-v| <= 4 for the expansion (duplicate-free, count, region).",
          "Trusted: ref.Vox formatting and ref.ChangeZoom.", "4/C10"),
- "C11": ("exhaustive choice-tree enumeration (E1): all tiles of zooms 1..5 (quick) / 1..7 (thorough), index classes at zooms up to 31, short lists x output zoom windows, vs bit-interleave and dyadic-box reference",
+ "C11": ("exhaustive choice-tree enumeration (E1): all tiles of zooms 1..7 (quick) / 1..10 (thorough), index classes at zooms up to 31, short lists x output zoom windows, vs bit-interleave and dyadic-box reference",
          "Bijection and digit order decided on every tile of the small zooms and on boundary/alternating-bit classes above; round trip identity; zoom-changing conversion equals per-axis zoom change; no pair twice across groups; groups echo parameters; altitude-key form shares the horizontal part; spatial-ID wrappers.",
          "Trusted: ref.Quadkey/FromQuadkey/ChangeZoom. Zoom differences above 3 and lists longer than 3 not covered.", "4/C11"),
  "C12": ("exhaustive choice-tree enumeration (E1) of (zoom,zoom,exponent,index,offset) in both directions vs exact big-integer interval arithmetic; dense band for the mutual-consistency law",
@@ -55,10 +55,10 @@ CLAIMED = {
  "C08": ("exhaustive choice-tree enumeration (E1) of IDs x stencils and short lists x layer counts vs set comprehension over the modular-shift model",
          "Full product of zooms x index classes (grid edges) x stencil, and list shapes x layer counts 0..4: result set, multiset size, duplicate freedom, exact count and self-exclusion where the stencil fits, symmetry of the relation.",
          "Trusted: ref.Vox.Shift. Lists longer than 3 and layer counts above 4 are not covered.", "4/C08"),
- "C03": ("explicit-state BFS (E2) over the VoxelSets operation machine with lock-step dyadic-box reference model + exhaustive choice-tree enumeration (E1) of the per-axis helpers",
+ "C03": ("explicit-state BFS (E2) over the VoxelSets operation machine with lock-step dyadic-box reference model + exhaustive choice-tree enumeration (E1) of the per-axis helpers (indices up to the ends of int64 for zoom-outs), of respelled IDs and of long lists",
          "Every zoom-change transition of the machine (all states reachable within the depth bound from each world, 25 target zoom pairs each) is compared with an integer dyadic-box model through both APIs; the exported per-axis helpers are enumerated over all zoom pairs x index classes.",
          "Trusted: ref.ChangeZoom (shifts). Bounds: BFS depth 3 quick / 4 thorough, state size <= 160, output <= 2048 IDs per call; indices outside alphabet classes not covered.", "4/C03"),
- "C04": ("explicit-state BFS (E2) over the VoxelSets operation machine; each merge transition checked against dyadic-box reference, region equality by cell refinement, idempotence",
+ "C04": ("explicit-state BFS (E2) over the VoxelSets operation machine; each merge transition checked against dyadic-box reference, region equality by cell refinement, idempotence; choice-tree enumeration (E1) of textual-prefix lists, respelled IDs and merge targets 20-35 levels coarser than the input",
          "Every merge transition reachable within the depth bound is compared with the reference merge, with an independent region-equality check, duplicate check, second application, and the single-zoom API on h=v states.",
          "Trusted: ref.Merge/ref.Cells. Bounds as C03 plus <= 12000 unit cells per merge call.", "4/C04"),
  "C07": ("stateless choice-tree enumeration (E1) of IDs x shifts vs integer modular arithmetic + explicit-state BFS of the complete torus at zooms 0..3",
